@@ -16,7 +16,7 @@ def hasnot(*subs):
 PROPS = {
     "C01": dict(
         units=[("contracts.selection", has("simple_batch", "rand_argmax")), ("contracts.lemmas", None),
-               ("contracts.pool_base", None), ("contracts.pool_epilogue", has("C01", "epilogue"))],
+               ("contracts.pool_base", None), ("contracts.pool_epilogue", has("C01", "epilogue")), ("contracts.pool_loops", has("C01"))],
         bounded=[("bounded/pool.py", "C01")],
         trusted=[L2_BASE, "library contracts of pyvc/lib.py used by the selection code (nanmax, argmax, choice, scatter/gather, np.sum as CNT)",
                  "[A-score] the score expression of a strategy yields len(X_cand) non-NaN numbers (checked at run time by the bounded stand-in)"],
@@ -26,7 +26,7 @@ PROPS = {
                     "array that is NaN exactly off the candidates together with the clipped batch size; every exported strategy swept at run time"),
     "C02": dict(
         units=[("contracts.selection", has("simple_batch", "rand_argmax")), ("contracts.lemmas", None),
-               ("contracts.pool_epilogue", has("C02", "epilogue"))],
+               ("contracts.pool_epilogue", has("C02", "epilogue")), ("contracts.pool_loops", has("C02"))],
         bounded=[("bounded/pool.py", "C02")],
         trusted=[L2_BASE, "[A-score] as in C01"],
         assumptions=["row structure is stated recursively: M(0) = non-NaN mask of the input, M(i+1) = M(i) minus pick i; row i is NaN exactly off M(i)"],
